@@ -350,7 +350,7 @@ func pickRace(plain, race int) int {
 	return plain
 }
 
-var l2keys = []string{"/tables/sys/idseq", "/tables/a*b/lease", "queue/q <&>\"/1"}
+var l2keys = []string{"/tables/sys/idseq", "/tables/a*b/lease", "queue/q\u2028<&>\"/1"}
 
 // client runs one client's share of a workload phase.
 func client(rs *kv.RaftStore, id int, seed int64, n int, ctr *atomic.Int64, known map[string]kv.Pair, seen map[string][]uint64) []hop {
@@ -367,7 +367,7 @@ func client(rs *kv.RaftStore, id int, seed int64, n int, ctr *atomic.Int64, know
 			h.Kind = "get"
 		case x < 75:
 			h.Kind = "set"
-			h.Val = fmt.Sprintf("c%d-%d-%d \"<&>", id, seed%1000, i)
+			h.Val = fmt.Sprintf("c%d-%d-%d\u2028\"<&>", id, seed%1000, i)
 		default:
 			h.Kind = "delete"
 		}
@@ -440,7 +440,7 @@ func runStore(r *ev.Run, id caseID) ([]hop, bool) {
 	}
 	defer rs.NodeHost.Close()
 	var ctr atomic.Int64
-	perPhase := r.Pick(120, 200)
+	perPhase := r.Pick(200, 250)
 	var all []hop
 	known := make([]map[string]kv.Pair, nClients)
 	seen := make([]map[string][]uint64, nClients)
